@@ -7,6 +7,9 @@ baseline = json.load(open('/root/.vp/BASELINE.json'))['cmd'] if os.path.exists('
 SIM = "deterministic simulation with fault injection (seeded schedules over real olric+memberlist+redcon+go-redis in one synctest bubble)"
 NOTE = "Trusts the simulator seams (simnet, simsync, fake clock) and that the mechanical source rewrite preserves olric's semantics; 1 P per run; sampling."
 claimed = {
+ "C05": dict(level="fault_enumeration", design="DESIGN.md §8 C05",
+   text="The configuration x fault space is finite (172 points: all (R,W,RQ) with W,RQ<=R<=3, N in {R,R+1}, every number of RESP-unreachable backup owners, refused or black-holed; N x MemberCountQuorum x partition sizes) and is enumerated completely in every tier; seeds vary latencies, schedules and the entry path on top. Oracle: Put acknowledged iff reachable copies >= W with the write-quorum error otherwise, copies counted by DM.GETENTRY census; Get iff >= RQ copies; members below MemberCountQuorum answer every RESP request and NewDMap with the cluster-quorum error and apply nothing.",
+   note=NOTE + " 'Unreachable' = RESP-class link fault between the primary owner and a backup while gossip keeps flowing.", technique=SIM + "; complete enumeration of the quorum/fault configuration space"),
  "C08": dict(level="exploration", design="DESIGN.md §8 C08",
    text="Seeded search over competing lockers on all entry points with timeouts, deadlines and hold times drawn around each other, leases, stale and forged tokens and minutes-long clock jumps; interval oracle on the simulated clock: mutual exclusion of certain-hold intervals, deadline lower bound, token safety, no early release, acquisition within timeout + retry period + latency.",
    note=NOTE, technique=SIM + "; interval oracle on the fake clock"),
